@@ -269,10 +269,18 @@ class Draws:
 
 class LogRecorder(logging.Handler):
     def __init__(self):
-        super().__init__(level=logging.WARNING)
+        super().__init__(level=logging.NOTSET)
         self.records = []
 
     def emit(self, record):
+        if record.levelno < logging.WARNING:
+            # reached only while the library's loggers are enabled for DEBUG (see rotate_loglevel): format the record as a
+            # real handler would, keep nothing unless formatting itself fails
+            try:
+                record.getMessage()
+            except Exception as exc:
+                self.records.append((record.name, record.levelname, type(exc).__name__, f"<unformattable log record: {exc!r}> {record.msg!r}"[:400]))
+            return
         et = None
         if record.exc_info and record.exc_info is not True:
             ei = record.exc_info
@@ -312,10 +320,34 @@ def install_logging():
     return rec
 
 
+_LOG_COUNT = [0]
+
+
+LOG_STATS = {"debug": 0, "warning": 0}
+
+
+def set_loglevel(debug):
+    logging.getLogger("someip").setLevel(logging.DEBUG if debug else logging.WARNING)
+    LOG_STATS["debug" if debug else "warning"] += 1
+    return debug
+
+
+def rotate_loglevel():
+    """An application may run the library with its loggers at WARNING (what the repository's tests pin) or enabled for DEBUG
+    (what its command-line tools do): every other scenario of a process runs with DEBUG, so that log statements - their
+    arguments, guards and formatting - are executed too.  PV_LOGLEVEL=debug|warning forces one."""
+    import os as _os
+
+    forced = _os.environ.get("PV_LOGLEVEL")
+    _LOG_COUNT[0] += 1
+    debug = (forced == "debug") if forced in ("debug", "warning") else _LOG_COUNT[0] % 2 == 1
+    return set_loglevel(debug)
+
+
 class Harness:
     """one scenario: fresh loop, forced draws, log recorder"""
 
-    def __init__(self, rng, draw_mode="rand", forced=None, max_iterations=200000):
+    def __init__(self, rng, draw_mode="rand", forced=None, max_iterations=200000, debug_log=None):
         import someip.sd
 
         self.loop = VLoop()
@@ -333,6 +365,7 @@ class Harness:
         self.draws = Draws(rng, draw_mode, forced)
         someip.sd.random = self.draws
         self.log = install_logging()
+        self.debug_log = rotate_loglevel() if debug_log is None else set_loglevel(debug_log)
         self._actions = {}
 
     # scripted actions: grouped per (instant, rank), executed in script order.
